@@ -9,11 +9,13 @@ from sa.facts import Program
 from sa.thorough import FEATURES
 repo = sys.argv[1] if len(sys.argv) > 1 else '/repo'
 names = set()
+adts = set()
 for feat in [''] + FEATURES:
     d, info = extract(repo, features=feat)
     prog = Program(d, inline=False)
     names.update(f.short for f in prog.fns.values() if f.kind in ('Fn', 'AssocFn'))
+    adts.update(k for k in prog.adts if '<' not in k and '::_::' not in k)
 out = os.path.join(os.path.dirname(os.path.dirname(os.path.abspath(__file__))), 'spec', 'known_functions.json')
 json.dump({'note': 'workspace functions of the reviewed tree (anchors the rules may name); functions not listed here are inlined into their callers (sa/inline.py)',
-           'functions': sorted(names)}, open(out, 'w'), indent=0)
+           'functions': sorted(names), 'adts': sorted(adts)}, open(out, 'w'), indent=0)
 print(len(names), 'functions ->', out)
